@@ -39,7 +39,9 @@ RULE = ("4 algorithms x qop {auth, ''} x users/realms/passwords with non-ASCII a
 EXHAUSTIVE = {"quick": False, "thorough": False}
 
 ALGS = ["MD5", "MD5-sess", "SHA-256", "SHA-256-sess"]
-USERS = [("user", "pw"), ("émile x", "hés lo"), ("bob", "pw"), ("a", "p:w"), ("Ünï", "пароль")]
+USERS = [("user", "pw"), ("émile x", "hés lo"), ("bob", "pw"), ("a", "p:w"), ("Ünï", "пароль"),
+         # names that contain one another, differ in letter case only, or hold the separator of A1
+         ("ops:admin", "pw1"), ("admin", "pw2"), ("ops", "pw3"), ("Bob", "pw4"), ("bobby", "pw5")]
 REALMS = ["Zone", "Admin Zone", "Zóna"]
 FIELDS = ["username", "realm", "nonce", "uri", "algorithm", "response", "opaque", "qop", "nc", "cnonce"]
 UNQUOTED = ("algorithm", "qop", "nc")
@@ -344,6 +346,13 @@ def window_valid(T, t0, t1):
 
 def oracle(case):
     t = case.split()
+    if t[1] == "gate":
+        # whatever the header holds: the endpoint runs or the answer is 401 with a challenge - never an error
+        obs = observe(case)
+        if not (obs.startswith("run ") or obs.startswith("401 ")):
+            return [Violation("c11:gate-error", case, "neither run nor 401: %s (Authorization %r)"
+                              % (obs, None if t[15] == "-" else unhx(t[15]).decode("utf-8", "replace")[:200]))]
+        return []
     if t[1] != "e2e":
         return []
     rng = random.Random(int(t[2]))
@@ -380,7 +389,16 @@ def oracle(case):
             return [Violation("c11:challenge", case, "no nonce in the challenge %r" % (chal[:120],))]
         nonce = m.group(1)
     scenario = rng.choice(["correct", "correct", "mutated", "mutated", "mutated", "nonce-age", "broken", "absent", "wrong-method",
-                           "other-user", "suffix-uri", "foreign-nonce", "wrong-password", "unknown-user"])
+                           "other-user", "suffix-uri", "foreign-nonce", "wrong-password", "unknown-user", "not-the-required-user"])
+    if scenario == "not-the-required-user" and (requser is None or len(pool) < 2):
+        # the endpoint is reserved for one user; another registered user of the same realm presents correct credentials
+        pool = rng.sample(USERS, rng.randrange(2, 5)) if rng.random() < 0.5 else \
+            [u for u in USERS if u[0] in ("ops:admin", "admin", "ops", "bob", "Bob", "bobby", "a")]
+        users = tuple((realm, u, hexd(hfun, "%s:%s:%s" % (u, realm, p))) for u, p in pool) + \
+            (("Other", "intruder", hexd(hfun, "intruder:Other:pw")),)
+        user, password = rng.choice(pool)
+        requser = user
+        app = get_app(alg, qop, users, realm, requser, secret, timeout)
     age = 0.0
     expect_run, expect_stale, note = True, None, ""
     f = client_fields(hfun, alg, qop, user, realm, password, nonce, method, uri, opaque_of())
@@ -450,6 +468,10 @@ def oracle(case):
                              hexd(hfun, "%s:%s:%s" % (ghost, realm, password))])
         f = client_fields(hfun, alg, qop, ghost, realm, "irrelevant", nonce, method, uri, opaque_of(), stored=stored)
         expect_run, note = False, "user %r, hash taken as %r" % (ghost, stored[:12])
+    elif scenario == "not-the-required-user":
+        other, opw = rng.choice([u for u in pool if u[0] != requser])
+        f = client_fields(hfun, alg, qop, other, realm, opw, nonce, method, uri, opaque_of())
+        expect_run, note = False, "correct credentials of %r, the endpoint requires %r" % (other, requser)
     elif scenario == "wrong-password":
         f = client_fields(hfun, alg, qop, user, realm, password + "x", nonce, method, uri, opaque_of())
         expect_run = False
